@@ -64,6 +64,7 @@ def unit():
                       desc="Eq / Ord / Hash / Clone of KeyId agree with its 33 bytes, for all pairs of ids (loop bound 33: complete)"))
     hs.append(Harness("header_table_prefix_free", ["C10"], functions=fn, desc="52-entry header table: no entry is a prefix of another (exhaustive over the constants)"))
     hs.append(Harness("sibling_headers_agree", ["C10", "C03", "C07"], functions=fn))
+    hs.append(Harness("kind_constants_are_spec", ["C13", "C10", "C07"], functions=["paseto-core/src/key.rs::KeyType/SealingKey constants"], desc="every kind / id / wrap header constant equals the PASERK specification's string"))
     hs.append(Harness("canary_text", ["C09", "C10"], expect="fail"))
     return Unit(
         name="u3_text", members=["paseto-core"], package="paseto-core",
